@@ -135,6 +135,10 @@ def c13(tier, seed):
            'PhysicalFS@OSM over a directory that holds a file with a non-UTF-8 name created behind the library (replayed on a real directory)')
     ocs = ovl_cases('UO3', 2, ['C13'], seed, ncfg=40 if tier == 'quick' else None, k1_ops=overlay.HIST_OPS + overlay.OBS_OPS, k2=4 if tier == 'quick' else 30)
     ck.add(run_cases(prog, overlay.run_history_case, ocs), 'overlay histories')
+    from . import altroot
+    mc = [{'universe': 'U4', 'P': P_, 'shape': (), 'missing': True,
+           'ops': ['create_dir', 'create_dir_all', 'write', 'append', 'remove_dir_all', 'remove_dir', 'remove_file', 'exists', 'read_dir', 'metadata', 'read']} for P_ in ('/a', '/a/b')]
+    ck.add(run_cases(prog, altroot.run_confine_case, mc), 'an altroot whose directory P does not exist (a filesystem without a root): no operation panics')
     # the pure path functions (join/parent/filename/extension) on symbolic strings: no input makes them panic
     from . import c06 as c06mod
     la6, lb6 = (5, 5) if tier == 'quick' else (7, 6)
